@@ -238,6 +238,8 @@ class Interp:
             return sym.f_tup(parts[0] if len(parts) == 1 else z3.Concat(*parts))
         if isinstance(v, (VSeq, VList)):
             t, k = self.seq_term(v)
+            if t is None:
+                return sym.f_tup(z3.Empty(sym.SeqElemS))
             if k is sym.K_ELEM:
                 return sym.f_tup(t)
         raise Unsupported('cannot treat %r as opaque data' % (v,))
@@ -657,7 +659,20 @@ class Interp:
     def dict_get_value(self, d, kt):
         c = self.st.heap[d.loc]
         if c.vlist is not None:
-            return VList(DictValLoc(d.loc, kt))
+            # the stored value is a list *object*: hand out a reference to its cell (aliasing preserved)
+            for ak, loc in c.aliases:
+                if ak.eq(kt):
+                    return VList(loc)
+            for ak, loc in c.aliases:
+                if self.branch(kt == ak):
+                    return VList(loc)
+            term = z3.Select(c.vals, kt)
+            v = self.st.new_list(term, c.vlist, c.vpytype)
+            c = self.st.heap[d.loc]
+            c2 = c.replace()
+            c2.aliases = c.aliases + ((kt, v.loc),)
+            self.st.heap[d.loc] = c2
+            return v
         return c.vkind.wrap(z3.Select(c.vals, kt))
 
     def dict_set(self, d, key, v):
@@ -673,8 +688,28 @@ class Interp:
         kt = self.term_of(key, c.kkind)
         if c.vlist is not None:
             vt, k = self.seq_term(v)
+            if vt is None:
+                vt = z3.Empty(z3.SeqSort(c.vlist.sort))
+                if isinstance(v, VList):
+                    self.st.heap[v.loc] = ListCell(vt, c.vlist, self.st.heap[v.loc].pytype, self.st.heap[v.loc].maxlen)
         else:
             vt = self.term_of(v, c.vkind)
+        if c.vlist is not None and c.aliases:
+            # the slot is rebound to a new list object: older references keep their own cell
+            keep = []
+            for ak, loc in c.aliases:
+                if ak.eq(kt):
+                    continue
+                if self.branch(kt == ak):
+                    continue
+                keep.append((ak, loc))
+            c = c.replace()
+            c.aliases = tuple(keep)
+            if isinstance(v, VList) and not isinstance(v.loc, DictValLoc):
+                c.aliases = c.aliases + ((kt, v.loc),)
+        elif c.vlist is not None and isinstance(v, VList):
+            c = c.replace()
+            c.aliases = c.aliases + ((kt, v.loc),)
         has = z3.Contains(c.keys, z3.Unit(kt))
         if self.branch(has):
             self.st.heap[d.loc] = c.replace(vals=z3.Store(c.vals, kt, vt))
@@ -826,6 +861,8 @@ class Interp:
         return self.get_item(base, key)
 
     def get_item(self, base, key):
+        if self.spec_mode and isinstance(base, VNone):
+            return NONE         # undefined sub-term of a guarded clause
         if isinstance(base, VBuiltin) and base.name == '__builtins__':
             return VBuiltin(key.s)
         if isinstance(base, VDict):
@@ -834,7 +871,7 @@ class Interp:
             has = z3.Contains(c.keys, z3.Unit(kt))
             if self.spec_mode:
                 if c.vlist is not None:
-                    return VSeq(z3.Select(c.vals, kt), c.vlist)
+                    return VSeq(self.st.dict_list_term(base.loc, kt), c.vlist)
                 return c.vkind.wrap(z3.Select(c.vals, kt))
             if self.branch(has):
                 return self.dict_get_value(base, kt)
